@@ -18,6 +18,7 @@ RULE = (
     "distinct cell (everything but the seed); non-trivial iff posterior differs from the prior by > 1e-3 in mean or covariance"
     '; pass 5: cases under default dtype float32 (model moved with .double()) and under no_grad / inference_mode'
     '; pass 6: max_cholesky_size exactly at / one below the train, test and joint sizes, max_eager_kernel_size == joint size; exact GPs with two input tensors (Hadamard multitask); only the prediction-time CG tolerance is tightened'
+    '; pass 7: models obtained through get_fantasy_model (caches updated, not recomputed) decided by the same post-condition for THEIR training data and likelihood; the models as members of an IndependentModelList with per-member call-time noise (None entries in every position)'
 )
 REQUIRED = ["posterior_mean", "posterior_covar", "likelihood_adds_noise", "mean_cache", "path:linear_cg", "path:exact_predictive_covar"]
 ASSUMPTIONS = [
@@ -271,7 +272,8 @@ def _post_call(a, k, out, tok):
     if case.get("large_cg"):
         tol = (2e-4, 2e-4)  # observed floor of converged CG on these systems: 1e-5; a solve stopped at 1e-3 is off by >1e-3
     ctol = tol
-    cls = ("cg" if iterative else "chol") + ("+love" if sd.get("fast_pred_var") else "") + ("+lazy" if sd.get("lazily_evaluate_kernels", True) else "+eager") + (":threshold=" + case["threshold"] if case.get("threshold") else "")
+    vtol = _ST.get("covar_tol_override") or tol
+    cls = ("fantasy:" if _ST.get("covar_tol_override") else "") + ("cg" if iterative else "chol") + ("+love" if sd.get("fast_pred_var") else "") + ("+lazy" if sd.get("lazily_evaluate_kernels", True) else "+eager") + (":threshold=" + case["threshold"] if case.get("threshold") else "")
     got_mean = out.mean.reshape(*out.mean.shape[: len(out.mean.shape) - (2 if mt else 1)], -1)
     ctx.close("posterior_mean", got_mean, ref_mean.expand(got_mean.shape), tol, cls=cls + ":mean")
     with torch.no_grad():
@@ -289,11 +291,11 @@ def _post_call(a, k, out, tok):
     elif love_lanczos_degenerate:
         ctx.info["love_lanczos_clustered_spectrum_not_full_rank"] += 1
     else:
-        ctx.close("posterior_covar", got_cov, ref_cov.expand(got_cov.shape), tol, cls=cls + ":covar")
+        ctx.close("posterior_covar", got_cov, ref_cov.expand(got_cov.shape), vtol, cls=cls + ":covar")
 
         var = out.variance.reshape(got_mean.shape)
         refv = torch.diagonal(ref_cov, dim1=-2, dim2=-1).clamp_min(S.min_variance.value(torch.double))
-        ctx.close("posterior_variance", var, refv.expand(var.shape), tol, cls=cls + ":var")
+        ctx.close("posterior_variance", var, refv.expand(var.shape), vtol, cls=cls + ":var")
     # the caches the prediction came from (localises a violation)
     strat = model.prediction_strategy
     cache = getattr(strat, "_memoize_cache", {})
@@ -554,8 +556,60 @@ def _run_case(case, ctx):
                     model(xs)
                 _ST["settings_at_call"] = sd
                 ctx.hit("second_call_exact_after_fast")
+            if (case["seed"] % 4 == 2 and "multitask" not in case and not case.get("threshold") and sd.get("max_cholesky_size") != 0 and not sd.get("skip_posterior_variances")
+                    and not (case["pbatch"] or case["xbatch"] or case["tbatch"]) and n >= 2 and not case.get("default_dtype") and not case.get("large_cg")):
+                # a model obtained through get_fantasy_model is an exact GP like any other: its posterior (from caches updated
+                # by a low-rank step, not recomputed) is the closed form for ITS training data and ITS likelihood - decided by
+                # the same post-condition, covariances at the tolerance of the cache update (1e-4 with fast variances)
+                gf = util.gen(case["seed"] + 11)
+                kf = 1 + case["seed"] % 3
+                xf, yf = util.randn(gf, kf, case["d"]), util.randn(gf, kf)
+                kwf = {"noise": util.rand(gf, kf) * 0.3 + 0.05} if case["lik"] != "gauss" else {}
+                with torch.no_grad():
+                    model.prediction_strategy = None
+                    model(xs)
+                    try:
+                        fm = model.get_fantasy_model(xf, yf, **kwf)
+                    except NotImplementedError:
+                        ctx.info["fantasy_documented_as_unsupported"] += 1  # (random-feature models say so)
+                        fm = None
+                    except Exception as e:
+                        ctx.fail("call_raised", f"get_fantasy_model raised {type(e).__name__}: {str(e)[:160]}", "raise", exc=type(e).__name__, fantasy=True)
+                        fm = None
+                    if fm is not None:
+                        _ST["covar_tol_override"] = "loose" if sd.get("fast_pred_var") else (1e-7, 1e-7)
+                        try:
+                            fm(xs)
+                            ctx.hit("fantasy_model_call")
+                        finally:
+                            _ST["covar_tol_override"] = None
+            if (case["seed"] % 5 == 1 and case["lik"] in ("fixed", "fixed+learn") and "multitask" not in case and not case.get("threshold") and not sd.get("skip_posterior_variances")
+                    and not (case["pbatch"] or case["xbatch"] or case["tbatch"]) and not case.get("default_dtype") and not case.get("large_cg")):
+                # the same models as members of an IndependentModelList: each member's posterior is decided by the post-condition,
+                # and the list likelihood with per-member call-time noise (None = "this member's own") adds to every member
+                # exactly what that member's likelihood adds when called alone
+                import warnings
+
+                m2, l2, _, _, xs2, tn2 = build(dict(case, seed=case["seed"] + 1))
+                m2.eval()
+                ml = gpytorch.models.IndependentModelList(model, m2)
+                with torch.no_grad(), warnings.catch_warnings():
+                    warnings.simplefilter("ignore")
+                    outs = ml(xs, xs2)
+                    for pattern in ([test_noise, None], [None, tn2], [test_noise, tn2], [None, None]):
+                        got = ml.likelihood(*outs, noise=pattern)
+                        for o_, l_, nz_, g_ in zip(outs, (lik, l2), pattern, got):
+                            alone = l_(o_, noise=nz_) if nz_ is not None else l_(o_)
+                            ctx.close("likelihood_adds_noise", g_.covariance_matrix, alone.covariance_matrix, "bit", cls="lik:list:" + "".join("t" if p_ is not None else "n" for p_ in pattern))
+                            if nz_ is not None:
+                                ref = o_.covariance_matrix + torch.diag_embed(nz_.expand(*o_.covariance_matrix.shape[:-2], ns))
+                                if case["lik"] == "fixed+learn":
+                                    ref = ref + l_.second_noise.unsqueeze(-1) * torch.eye(ns)
+                                ctx.close("likelihood_adds_noise", g_.covariance_matrix, ref, "direct", cls="lik:list:explicit")
+                ctx.hit("model_list_likelihood")
     finally:
         _ST["case"] = None
+        _ST["covar_tol_override"] = None
     cell = {k: v for k, v in case.items() if k not in ("seed", "hostile")}
     ctx.cell(cell, nontrivial=_ST["nontrivial"])
 
